@@ -86,7 +86,7 @@ Gen ==
           c' = [kind |-> "unknown", from |-> 0, spelling |-> f, variant |-> "asis", to |-> 0, tospelling |-> t,
                 cls |-> cls, bound |-> 0, expunit |-> IF t \in SkipTargets THEN "" ELSE t, ratio |-> Zero3]
      \/ \E a, b, d \in UnitIdx : /\ SameFam(a, b) /\ SameFam(b, d) /\ a # b /\ b # d /\ a # d   \* harmonising three profiles
-                                 /\ (Tier = "thorough" \/ Units[a].fam = "time")
+                                 /\ (Tier = "thorough" \/ Units[a].fam \in {"time", "gcu"})
                                  /\ c' = [kind |-> "harmonise", from |-> a, spelling |-> Units[a].name, variant |-> "asis", to |-> b, tospelling |-> Units[b].name,
                                           cls |-> "seven", bound |-> d, expunit |-> "", ratio |-> Zero3]
   /\ pc' = "emit"
